@@ -391,6 +391,23 @@ fn pool_alphabet(n: &Node, cfg: &AlphaCfg) -> Vec<(String, Transaction, bool)> {
                 }
             }
         }
+        if cfg.swaps && cfg.odd_shapes {
+            // a Swap that names the pool but whose first output is of a denomination the pool does not trade: not a request - its
+            // outputs stay as declared, alone and next to genuine requests on either side (seed C15-r11-1: such a transaction was
+            // settled as a right-hand request and paid out of nothing)
+            let foreign = [Denom::Sym, Denom::Erg, Denom::Mel].into_iter().find(|d| *d != k.left() && *d != k.right());
+            if let Some(fd) = foreign {
+                if let Some(c) = coins_of(m, fd, 1).into_iter().next() {
+                    if let Some((ins, carrier_out)) = spend_base(m, &c) {
+                        if !(ins.len() == 2 && ins[0] == ins[1]) {
+                            let mut o = vec![out_t(c.1.coin_data.value.0, fd)];
+                            o.extend(carrier_out);
+                            out.push((format!("swap-foreign-denomination[{}]({} {})", pname, dn(fd), short(&c.0)), tx_t(TxKind::Swap, ins, o, 0, k.to_bytes().to_vec()), true));
+                        }
+                    }
+                }
+            }
+        }
         if cfg.deposits {
             let l = coins_of(m, k.left(), 1);
             let r = coins_of(m, k.right(), 1);
